@@ -659,3 +659,5 @@ def run(report, repo):
                 'openhtf/core/phase_collections.py', 'openhtf/core/phase_group.py',
                 'openhtf/core/phase_branches.py', 'openhtf/util/validators.py',
                 'openhtf/core/diagnoses_lib.py'])
+  from sa.rules import extra5 as _e5d  # pylint: disable=g-import-not-at-top
+  report.guard(_e5d.with_args_builds_new_validator_list, report, repo, 'C11-R9')
